@@ -57,6 +57,10 @@ func (p *Program) Callees(fi *FuncInfo, call *ast.CallExpr) (fns []*types.Func, 
 		}
 		return []*types.Func{fn}, nil
 	}
+	// a local variable holding named functions (assigned, or ranging over a table of functions)
+	if vals := p.funcValues(fi, call.Fun, 0); len(vals) > 0 {
+		return vals, nil
+	}
 	// closure variable
 	if o := ObjOf(info, call.Fun); o != nil {
 		for _, d := range p.Locals(fi).Defs[o] {
@@ -250,4 +254,69 @@ func (p *Program) SCCs() [][]*FuncInfo {
 	}
 	sort.Slice(out, func(i, j int) bool { return out[i][0].QName() < out[j][0].QName() })
 	return out
+}
+
+// funcValues resolves a function-valued expression to the declared functions it may denote:
+// a function or method identifier, a local assigned from one, or the loop variable of a range over a
+// composite literal (table) of functions.
+func (p *Program) funcValues(fi *FuncInfo, e ast.Expr, depth int) []*types.Func {
+	if depth > 4 {
+		return nil
+	}
+	info := fi.Pkg.TypesInfo
+	e = Unparen(e)
+	switch x := e.(type) {
+	case *ast.Ident:
+		switch o := info.Uses[x].(type) {
+		case *types.Func:
+			return []*types.Func{o.Origin()}
+		case *types.Var:
+			var out []*types.Func
+			for _, d := range p.Locals(fi).Defs[o] {
+				switch d.Kind {
+				case DefAssign:
+					out = append(out, p.funcValues(fi, d.Expr, depth+1)...)
+				case DefRangeVal:
+					out = append(out, p.funcElems(fi, d.Expr, depth+1)...)
+				}
+			}
+			return out
+		}
+	case *ast.SelectorExpr:
+		if o, ok := info.Uses[x.Sel].(*types.Func); ok {
+			return []*types.Func{o.Origin()}
+		}
+		// field of a struct element of a table: tbl[i].fn — not resolved
+	}
+	return nil
+}
+
+// funcElems: the function-valued elements of a slice/array/map expression.
+func (p *Program) funcElems(fi *FuncInfo, e ast.Expr, depth int) []*types.Func {
+	if depth > 4 {
+		return nil
+	}
+	info := fi.Pkg.TypesInfo
+	switch x := Unparen(e).(type) {
+	case *ast.CompositeLit:
+		var out []*types.Func
+		for _, el := range x.Elts {
+			if kv, ok := el.(*ast.KeyValueExpr); ok {
+				el = kv.Value
+			}
+			out = append(out, p.funcValues(fi, el, depth+1)...)
+		}
+		return out
+	case *ast.Ident:
+		if o, ok := info.Uses[x].(*types.Var); ok {
+			var out []*types.Func
+			for _, d := range p.Locals(fi).Defs[o] {
+				if d.Kind == DefAssign {
+					out = append(out, p.funcElems(fi, d.Expr, depth+1)...)
+				}
+			}
+			return out
+		}
+	}
+	return nil
 }
